@@ -33,7 +33,7 @@ FILE *__wrap_fopen(const char *path, const char *mode) { kx_event(0, "fopen path
 /* ------------------------------------------------------------------ simulated sockets */
 #define SIM_FD0 5000
 #define MAXCONN 256
-#define MAXEP 16
+#define MAXEP 4096
 #define MAXSCRIPT 64
 enum { CS_FREE = 0, CS_NEW, CS_CONNECTING, CS_ESTABLISHED, CS_REFUSED, CS_CLOSED };
 typedef struct { char host[300]; char port[16]; int connect_mode; /* 0 ok, 1 inprogress (established at next poll), 2 refused, 3 dnsfail, 4 stay connecting */
